@@ -36,7 +36,7 @@ SPEC = dict(
     ],
     units=[
         pbt("c16_server", "harness/c16_server.cpp", dict(
-            serve=P(80, 600, 16, 16, q_secs=50, t_secs=700, extra=["--shrink-seconds", "25"]),
+            serve=P(80, 1500, 16, 16, q_secs=50, t_secs=700, extra=["--shrink-seconds", "25"]),
         )),
     ],
 )
